@@ -1025,3 +1025,69 @@ Proof.
   unfold readableBytes, prependableBytes, new_buf in *. cbn [ridx widx] in *.
   repeat split; try lia; assumption.
 Qed.
+
+(* ---- shrink(reserve) leaves at least [reserve] writable bytes and a fresh prepend area --- *)
+Lemma append_fits d b l : Inv b l -> length d <= writableBytes b ->
+  exists b', append d b = Ok b' /\ ridx b' = ridx b /\
+             writableBytes b' = writableBytes b - length d.
+Proof.
+  intros HI Hd. unfold append, ensureWritable.
+  destruct (Nat.ltb_spec (writableBytes b) (length d)) as [Hlt|_]; [lia|].
+  cbn [bind]. destruct (Nat.leb_spec (length d) (writableBytes b)); [|lia].
+  cbn [bind]. destruct (store_tail b l d HI Hd) as (s' & -> & _ & Hlen). cbn [mem bind].
+  destruct (Nat.leb_spec (length d) (writableBytes b)); [|lia].
+  eexists; split; [reflexivity|]. cbn [ridx]. split; [reflexivity|].
+  unfold writableBytes in *. cbn [store widx]. lia.
+Qed.
+
+Lemma shrink_post r b l b' : Inv b l -> shrink r b = Ok b' ->
+  r <= writableBytes b' /\ prependableBytes b' = kCheapPrepend.
+Proof.
+  intros HI. pose proof (inv_sizes b l HI) as (_ & _ & H3 & _).
+  unfold shrink. rewrite (read_content b l HI). cbn [mem bind].
+  destruct (ensureWritable_ok (readableBytes b + r) (new_buf kInitialSize) [] (new_buf_inv _))
+    as (o1 & E & HI1 & Hw & Hu).
+  pose proof (ensureWritable_up _ _ _ E) as Hup. cbn [new_buf up] in Hup.
+  rewrite E. cbn [bind].
+  destruct (append_fits l o1 [] HI1) as (b2 & -> & Hr & Hw2); [lia|].
+  intros [= <-]. split; [lia|].
+  unfold prependableBytes. rewrite Hr.
+  cbn [new_buf ridx up] in Hu. destruct Hu as [Hu|[Hu _]]; [lia|exact Hu].
+Qed.
+
+Lemma shrink_reserve st s r st' o : reach st s ->
+  step st (Shrink r) = Ok (st', o) ->
+  r <= writableBytes (fst st') /\ prependableBytes (fst st') = kCheapPrepend.
+Proof.
+  intros Hr. destruct (reach_inv st s Hr) as [HI _]. cbn [step on_fst].
+  destruct (shrink r (fst st)) as [b'| |] eqn:E; cbn [bind]; try discriminate.
+  intros [= <- _]. cbn [fst]. eapply shrink_post; eassumption.
+Qed.
+
+(* ---- where the reader index can end up (used by C18: fillEmptyBuffer's final prepend) ---- *)
+Lemma ensureWritable_ridx len b b' : ensureWritable len b = Ok b' ->
+  ridx b' = ridx b \/ ridx b' = kCheapPrepend.
+Proof.
+  unfold ensureWritable, makeSpace. intros H.
+  destruct (writableBytes b <? len); cbn [bind] in H.
+  - destruct (writableBytes b + prependableBytes b <? len + kCheapPrepend); cbn [bind] in H.
+    + split_ok H. subst b'. left. reflexivity.
+    + split_ok H; subst b'; right; reflexivity.
+  - split_ok H. subst b'. left. reflexivity.
+Qed.
+
+Lemma append_ridx d b b' : append d b = Ok b' -> ridx b' = ridx b \/ ridx b' = kCheapPrepend.
+Proof.
+  unfold append. intros H.
+  destruct (ensureWritable (length d) b) as [b1| |] eqn:E; cbn [bind] in H; try discriminate.
+  apply ensureWritable_ridx in E. split_ok H. subst b'. exact E.
+Qed.
+
+Lemma hasWritten_ridx d b b' : hasWrittenBytes d b = Ok b' -> ridx b' = ridx b.
+Proof. unfold hasWrittenBytes. intros H. split_ok H; subst b'; reflexivity. Qed.
+
+Lemma be_encode_mod n x : be_encode n (x mod 256 ^ Z.of_nat n) = be_encode n x.
+Proof.
+  pose proof (be_encode_decode (be_encode n x)) as H.
+  rewrite be_encode_length, be_decode_encode in H. exact H.
+Qed.
